@@ -297,6 +297,30 @@ def mgda(index, ctx, A, by_class):
                                                                                                       (f"{pd - pn if pd is not None and pn is not None else '?'} > 0 is not guaranteed (step could exceed 1: the iterate leaves the simplex)", pos_rest)) if not ok)),
                         _loc(fi, nd.ast), derivation={"facts": [repr(f) for f in facts]})
         ctx.require(all(isinstance(c, (int, float)) and 0 <= c <= 1 for c in consts), "R5", "MGDA: constant step sizes lie in [0, 1]", f"constants {consts}", f"constant step sizes {consts}", _loc(fi, loop))
+    # early exits of the optimisation loop
+    exits = [nd for nd in cfg.stmt_nodes() if isinstance(nd.ast, (ast.Break, ast.Return)) and any(nd.ast is x for x in ast.walk(loop))]
+    runs = by_class.get("MGDA", [])
+    scale_locs = {}
+    for run in runs:
+        for r in run.results:
+            for e in r.events:
+                if e["kind"] == "scale_branch" and e["function"].endswith(fi.qualname.split(".")[-1]):
+                    scale_locs[e["loc"].rsplit(":", 1)[-1]] = e
+    for nd in exits:
+        for t, lbl in cfg.guards_of(nd):
+            if not (t.kind == "test" and isinstance(t.ast, ast.If) and any(t.ast is x for x in ast.walk(loop))):
+                continue
+            used = {n.id for n in ast.walk(t.ast.test) if isinstance(n, ast.Name)} - {"self"}
+            key = f"MGDA: early exit guarded by `{norm_text(t.ast.test)}`"
+            if gname is not None and used <= {gname}:
+                ctx.ok("R5", key, "exit decided by the step size alone (a dimensionless quantity)", _loc(fi, t.ast))
+                continue
+            ev = scale_locs.get(str(t.ast.lineno))
+            if ev is not None:
+                ctx.violated("R5", key, f"the loop stops on a test that compares a degree-{ev['left']} with a degree-{ev['right']} quantity: for a small enough scale of the matrix it "
+                             "fires in the first iteration and the uniform starting point is returned instead of the minimum-norm point", _loc(fi, t.ast))
+            else:
+                ctx.undecided("R5", key, "exit criterion other than the step size: whether the iterate is (near-)optimal when it fires is not decided", _loc(fi, t.ast))
     # uniform start from the interpreter: first mul/div making 1/m
     init = [s for s in fi.node.body if isinstance(s, ast.Assign) and isinstance(s.targets[0], ast.Name) and s.targets[0].id == a]
     okinit = False
